@@ -24,20 +24,21 @@ def shell_cutoff(crys, chem, nshell=1, win=2):
 
 
 def connected(crys, chem, cutoff):
-    """does the jump network span all dimensions and connect all sites of chem (modulo lattice)?"""
+    """does the jump network connect all sites of chem and percolate in every direction?  (closed walks of the network
+    must generate a rank-d set of lattice translations: a finite "molecule" of sites is not a diffusion network)"""
     jn = crys.jumpnetwork(chem, cutoff)
     if not jn: return False
-    dxs = np.array([dx for jl in jn for (i, j), dx in jl])
-    if np.linalg.matrix_rank(dxs, tol=1e-8) < crys.dim: return False
     n = len(crys.basis[chem])
-    adj = {i: set() for i in range(n)}
-    for jl in jn:
-        for (i, j), dx in jl: adj[i].add(j)
-    seen, todo = {0}, [0]
+    edges = [(i, j, R) for jl in crys.jumpnetwork2lattice(chem, jn) for (i, j), R in jl]
+    pot = {0: np.zeros(crys.dim, dtype=int)}; todo = [0]
     while todo:
-        for j in adj[todo.pop()]:
-            if j not in seen: seen.add(j); todo.append(j)
-    return len(seen) == n
+        a = todo.pop()
+        for (i, j, R) in edges:
+            if i == a and j not in pot:
+                pot[j] = pot[i] + R; todo.append(j)
+    if len(pot) != n: return False
+    cycles = np.array([pot[i] + R - pot[j] for (i, j, R) in edges])
+    return np.linalg.matrix_rank(cycles) == crys.dim
 
 
 def _entry(cid, crys, chem=0, nshell=1, **kw):
@@ -45,7 +46,7 @@ def _entry(cid, crys, chem=0, nshell=1, **kw):
     if cutoff is None:
         cutoff = shell_cutoff(crys, chem, nshell)
         k = nshell
-        while not connected(crys, chem, cutoff) and k < 6:
+        while not connected(crys, chem, cutoff) and k < 25:
             k += 1; cutoff = shell_cutoff(crys, chem, k)
     return dict(id=cid, crys=crys, chem=chem, cutoff=cutoff, **kw)
 
